@@ -147,6 +147,21 @@ func (match6Engine) Run(ctx *fw.Ctx, cs any) {
 			}
 		}
 	}
+	// (1b) well-formed relay envelopes whose OUTER type is RELAY-REPL (13), around every supported client message
+	for _, typ := range []byte{1, 3, 4, 5, 6, 8, 11} {
+		for depth := 1; depth <= 3; depth++ {
+			xid++
+			msg := pkt.Msg6(typ, xid, []pkt.Opt6{pkt.O6(pkt.OptClientID6, randDUID(rng)), pkt.ORO(23)})
+			for d := 0; d < depth; d++ {
+				rt := byte(12)
+				if d == depth-1 {
+					rt = 13
+				}
+				msg = pkt.Relay6(rt, byte(d), net.ParseIP("2001:db8:7::1"), net.ParseIP("fe80::7"), []pkt.Opt6{pkt.O6(pkt.OptInterfaceID, []byte("x"))}, msg)
+			}
+			addReq(msg, -1)
+		}
+	}
 	// (2) generated and mutated
 	for i := 0; i < c.NRand; i++ {
 		xid++
